@@ -9,6 +9,8 @@ static Case g_case;
 static std::vector<Op> alphabet(size_t size) {
     std::vector<Op> a;
     for (size_t n = 0; n <= size + 1; n++) { a.push_back({ADD, n}); a.push_back({CONSUME, n}); a.push_back({ATMOST, n}); }
+    // lengths at the top of size_t: "offset + n" / "used + n" style arithmetic wraps there (consume and at-most only: add would need a source of that size)
+    for (size_t n : {(size_t)SIZE_MAX, (size_t)SIZE_MAX - 1, (size_t)1 << 63}) { a.push_back({CONSUME, n}); a.push_back({ATMOST, n}); }
     a.push_back({REWIND, 0}); a.push_back({RESET, 0}); a.push_back({CLEAR, 0}); a.push_back({REPEAT, 0}); a.push_back({QUERY, 0});
     return a;
 }
@@ -76,7 +78,7 @@ static void run() {
     auto &a = vp::args();
     size_t maxsize = a.thorough() ? 5 : 4;
     g_maxdepth = a.thorough() ? 5 : 4;
-    vp::stats().rule = vp::fmt("enum: every op sequence of length <= %zu over add/consume/consume_at_most (operand 0..size+1), rewind, reset, clear, repeat, query "
+    vp::stats().rule = vp::fmt("enum: every op sequence of length <= %zu over add/consume/consume_at_most (operand 0..size+1; consume/at-most also with lengths at the top of size_t), rewind, reset, clear, repeat, query "
                                "from every valid (size<=%zu, used, offset) initial state; every set/use/space argument combination",
                                g_maxdepth, maxsize);
     vp::stats().exhaustive = true;
